@@ -86,6 +86,11 @@ impl Debug for AbsoluteTime {
 
 #[cfg(not(test))]
 pub fn now_monotonic() -> std::time::Instant {
+    // With the cargo feature `verif`, the monotonic clock can be substituted by a simulation
+    #[cfg(feature = "verif")]
+    if tako::verif::sim_clock_active() {
+        return tako::verif::now();
+    }
     std::time::Instant::now()
 }
 
